@@ -858,7 +858,7 @@ func (g *mgGen) stmt(budget *int) []*mgStmt {
 		}
 		return nil
 	default:
-		if g.swTotal < 2 && depth <= 4 && g.r.chance(45) {
+		if g.swTotal < 2 && depth <= 4 && g.r.chance(30) {
 			if ss := g.shadowStmts(); ss != nil {
 				return ss
 			}
@@ -873,7 +873,6 @@ func (g *mgGen) stmt(budget *int) []*mgStmt {
 		return []*mgStmt{{K: "asg", X: vs[g.r.intn(len(vs))].id, E: g.genIntFit(3)}}
 	}
 }
-
 
 // shadowStmts: block scoping of names, on purpose. A name of an enclosing scope (parameter or local) is declared
 // again with := inside a switch clause / an if body / as the variable of a for statement and in a block of its
